@@ -29,7 +29,7 @@ PROFILE = {"n_states": (2, 5), "n_events": (1, 3), "extra_transitions": (1, 5), 
            "p_guard": 0.5, "p_validator": 0.15, "p_conv": 0.3, "p_inline": 0.35, "p_deco": 0.08,
            "providers": ["sm", "model", "l0", "l1", "l2"],
            "p_provider": {"sm": 1.0, "model": 0.7, "l0": 0.9, "l1": 0.7, "l2": 0.5},
-           "guard_kinds": ["method", "method", "prop", "attr"]}
+           "guard_kinds": ["method", "method", "prop", "attr"], "p_sigdeco": 0.2}
 
 
 def multi_valuation(rng, spec, active_all):
